@@ -94,7 +94,7 @@ def describe_junit(req, impl, model):
 
 
 def run_junit(seed, tier, replay=None):
-    n = 300 if tier == "quick" else 20000
+    n = 300 if tier == "quick" else 40000
     r = common.run_streams([("p_junit", [seed, n, vlib.BUILD + "/junit-tmp"])])
     items = [([b, args, idx], req, impl) for (b, args, idx, req, impl) in r.cases]
     mism, _ = common.compare(items, None)
